@@ -1,10 +1,12 @@
 import Proofs.SpaceRows
+import Proofs.SpaceCheckers
 import Proofs.RealLog
 
 /-!
 # C09 — Space transforms round-trip and stay inside their bounds
 
-Property theorems only.  Model: `Model/Space.lean` (the code after the fixes of branch `fix-g4`);
+Property theorems only.  Model: `Model/Space.lean` (the code as it is on `/repo` main, after the
+fixes c712e68 and 01bcae6);
 lemmas: `Proofs/Space*.lean`.
 
 `L` stands for `x ↦ np.log10(x) / np.log10(base)` and `E` for `t ↦ base ** t`; both are
@@ -101,6 +103,59 @@ theorem C09_roundtrip_member (L E E' : Rat → Rat) (hM : MonoOn L) (hI : InvOn 
   refine ⟨Xt, h1, ⟨X, h2, hX⟩, ?_⟩
   intro hs X'' h3
   exact C09_member_any L E' dims Xt X'' (fun d hd' => ⟨hwf d hd', hs d hd'⟩) h3
+
+/-! ### verified checkers: the oracle the harness runs on the REAL outputs of the implementation -/
+
+/-- **C09 (checker = specification, shape).** -/
+theorem C09_checker_shape (dims : List Dim) (n : Nat) (Xt : List (List Rat)) :
+    checkShape dims n Xt = true ↔ Xt.length = n ∧ ∀ r ∈ Xt, r.length = transformedNDims dims := by
+  simp [checkShape, List.all_eq_true]
+
+/-- **C09 (checker = specification, bounds).**  Every row has exactly as many coordinates as there
+are `(low, high)` pairs and coordinate `j` lies inside pair `j`. -/
+theorem C09_checker_bounds (bounds : List (Rat × Rat)) (Xt : List (List Rat)) :
+    checkBounds bounds Xt = true ↔
+      ∀ r ∈ Xt, r.length = bounds.length ∧
+        ∀ (j : Nat) (x : Rat) (b : Rat × Rat), r[j]? = some x → bounds[j]? = some b → b.1 ≤ x ∧ x ≤ b.2 := by
+  simp only [checkBounds, List.all_eq_true, all2_iff, Bool.and_eq_true, decide_eq_true_eq]
+
+/-- **C09 (checker = specification, round trip).**  `XT`: the input points with the tolerance of
+every entry (0 for integers and categories).  The checker accepts exactly when there is one returned
+row per input row, one entry per entry, every entry is "the same value" (`CellSpec`: floats within
+the tolerance, anything else the identical Python value of the same kind), and every returned row
+is a point of the space. -/
+theorem C09_checker_roundtrip (dims : List Dim) (XT : List (List (Val × Rat))) (X' : List (List Val)) :
+    checkRoundTrip dims XT X' = true ↔
+      (XT.length = X'.length ∧
+        ∀ (i : Nat) (rowT : List (Val × Rat)) (row' : List Val), XT[i]? = some rowT → X'[i]? = some row' →
+          rowT.length = row'.length ∧
+          ∀ (j : Nat) (vt : Val × Rat) (v' : Val), rowT[j]? = some vt → row'[j]? = some v' →
+            CellSpec vt.2 vt.1 v') ∧
+      ∀ r ∈ X', memRow dims r = true := by
+  simp only [checkRoundTrip, Bool.and_eq_true, all2_iff, List.all_eq_true, cellClose_iff]
+
+/-- the checkers are not vacuous: with zero tolerance they accept what the exact round trip returns
+(`C09_roundtrip`: `X' = X`) and the model's transform (`C09_shape`, `C09_bounds`). -/
+theorem C09_checker_accepts_exact (L E : Rat → Rat) (hM : MonoOn L) (hI : InvOn L E) (dims : List Dim)
+    (X : List (List Val)) (hd : dims ≠ []) (hx : X ≠ []) (hwf : ∀ d ∈ dims, d.wf = true)
+    (hX : ∀ r ∈ X, memRow dims r = true) :
+    ∃ Xt X', transform L dims X = .ok Xt ∧ inverseTransform L E dims Xt = .ok X' ∧
+      checkShape dims X.length Xt = true ∧ checkBounds (transformedBounds L dims) Xt = true ∧
+      checkRoundTrip dims (X.map (fun r => r.map (fun v => (v, (0 : Rat))))) X' = true := by
+  obtain ⟨Xt, h1, h2⟩ := C09_roundtrip L E hM hI dims X hd hx hwf hX
+  obtain ⟨Xt', h1', hs1, hs2⟩ := C09_shape L hM dims X hd hx hwf hX
+  obtain ⟨Xt'', h1'', hb⟩ := C09_bounds L hM dims X hd hx hwf hX
+  have e1 : Xt' = Xt := Except.ok.inj (h1'.symm.trans h1)
+  have e2 : Xt'' = Xt := Except.ok.inj (h1''.symm.trans h1)
+  rw [e1] at hs1 hs2
+  rw [e2] at hb
+  refine ⟨Xt, X, h1, h2, (C09_checker_shape dims X.length Xt).mpr ⟨hs1, hs2⟩, ?_, ?_⟩
+  · simp only [checkBounds, List.all_eq_true]
+    intro r hr
+    rw [← inBounds_eq_all2]
+    exact hb r hr
+  · simp only [checkRoundTrip, Bool.and_eq_true, List.all_eq_true]
+    exact ⟨rows_close_refl X, hX⟩
 
 /-! ### non-vacuity: the hypotheses are satisfiable by non-trivial states -/
 
